@@ -54,7 +54,6 @@ def validate_attributes(attributes, namespace, whitelist):
 
 def convert_data_attributes(ns_attrs, attrs, namespaces) -> None:
     d = 0
-    keys = list(ns_attrs)
     for i, attr in list(enumerate(attrs)):
         name = attr['name']
         if name.startswith('data-'):
@@ -66,10 +65,8 @@ def convert_data_attributes(ns_attrs, attrs, namespaces) -> None:
             if namespace not in (TAL, METAL, I18N, META):
                 # an ordinary data attribute
                 continue
-            # The attribute leaves both collections: they are paired by
-            # position when the attributes to drop are computed.
-            if i < len(keys):
-                ns_attrs.pop(keys[i], None)
+            # The attribute leaves both collections.
+            ns_attrs.pop((attr['namespace'], attr['name']), None)
             ns_attrs[namespace, name] = attr['value']
             attrs.pop(i - d)
             d += 1
